@@ -60,6 +60,9 @@ func (e *Engine) AnalyzeRoot(fn *ssa.Function, opt RootOptions) []RootReturn {
 			}
 		}
 	}
+	if e.RootInit != nil {
+		e.RootInit(st)
+	}
 	rets, _ := e.Eval(fn, st, true, nil)
 	for _, r := range rets {
 		out = append(out, RootReturn{r.st, r.ret})
